@@ -30,7 +30,7 @@ import (
 
 // Case is one replayable case: one file and the passwords tried on it.
 type Case struct {
-	Space   string   `json:"space"`   // "passwords" | "permissions" | "long-passwords" | "lengths" | "aliasing"
+	Space   string   `json:"space"`   // "passwords" | "permissions" | "long-passwords" | "lengths" | "aliasing" | "containers"
 	Version string   `json:"version"` // "1.4"
 	User    string   `json:"user"`
 	Owner   string   `json:"owner"`
@@ -50,6 +50,11 @@ type Case struct {
 	AliasKind  string `json:"alias_kind,omitempty"`          // string | string-overlap | array | dict
 	AliasLen   int    `json:"alias_string_length,omitempty"` // length of the string inside the value
 	AliasSlots []int  `json:"alias_slots,omitempty"`         // place of every occurrence (index into aliasSlotNames), non-decreasing
+
+	// space "containers" only: strings at every depth of containers of every width of containerWidths(ContTop) (containers.go)
+	ContKind string `json:"container_kind,omitempty"`      // array | dict
+	ContFill string `json:"container_fill,omitempty"`      // sparse | dense
+	ContTop  int    `json:"container_width_top,omitempty"` // largest power of two of the width family
 }
 
 type failure struct {
@@ -670,6 +675,8 @@ func (rn *runner) one(c Case) {
 		fs = rn.checkLengths(&c)
 	case "aliasing":
 		fs = rn.checkAliasing(&c)
+	case "containers":
+		fs = rn.checkContainers(&c)
 	default:
 		fs = rn.checkFile(&c)
 	}
@@ -717,7 +724,7 @@ func Run(tier string) int {
 	}
 	r := ev.New("C09", tier, "exploration", budget)
 	rn := &runner{r: r, g: theGraph()}
-	r.Rule("a case is one file (version, user password, owner password, permissions, metadata mode, HumanReadable) written by the Writer and one password it is opened with by the Reader; in the length space a case is one (cipher, write piece size, password role, length, read buffer size) stream read or (cipher, role, length) string read; in the aliasing space a case is one (cipher, HumanReadable, value kind, string length, placement of the occurrences, password role) open with all objects read back; evaluations count writes, opens and, in the length space, stream and string reads; distinct = the length-space and aliasing-space cases, plus distinct (version, metadata mode, permissions, HumanReadable, prepared user password, prepared owner password, prepared try-password or 'unpreparable') tuples of encrypted files, i.e. passwords that the standard's preparation identifies count once")
+	r.Rule("a case is one file (version, user password, owner password, permissions, metadata mode, HumanReadable) written by the Writer and one password it is opened with by the Reader; in the length space a case is one (cipher, write piece size, password role, length, read buffer size) stream read or (cipher, role, length) string read; in the aliasing space a case is one (cipher, HumanReadable, value kind, string length, placement of the occurrences, password role) open with all objects read back; in the container space a case is one (cipher, HumanReadable, wide kind, fill, password role, width, outer wrapping, inner wrapping, write route) object read; evaluations count writes, opens and, in the length and container spaces, stream, string and object reads; distinct = the length-space, aliasing-space and container-space cases, plus distinct (version, metadata mode, permissions, HumanReadable, prepared user password, prepared owner password, prepared try-password or 'unpreparable') tuples of encrypted files, i.e. passwords that the standard's preparation identifies count once")
 	r.Assume("password preparation, permission closure and expected open/fail decision come from ref/stdsec and this package (written from ISO 32000 and RFC 4013, self-tested at start); SASLprep: unassigned code points of Unicode 3.2 not checked, NFKC of the current Unicode version",
 		"passwords with a code point at an 'undefined' PDFDocEncoding position (here: U+00AD) are a grey zone for revisions <= 4: only the same string is required to open the file, a try with such a password must fail with any error",
 		"a missing owner password means the file has no password but the user password",
@@ -875,6 +882,42 @@ func Run(tier string) int {
 		rn.one(ajobs[(k%len(versions))*per+k/len(versions)])
 	})
 
+	// (f) containers: strings at every depth of containers of every width
+	// around the powers of two, per version x wide kind x fill (x HumanReadable
+	// thorough) (containers.go)
+	cp := containerParamsFor(r.Thorough())
+	var cjobs []Case
+	for _, fill := range []string{"dense", "sparse"} { // the expensive files first
+		top := cp.topSparse
+		if fill == "dense" {
+			top = cp.topDense
+		}
+		for _, v := range versions {
+			vs, _ := v.ToString()
+			for _, human := range pwHuman {
+				for _, kind := range containerKinds {
+					cjobs = append(cjobs, Case{Space: "containers", Version: vs, User: "a", Owner: "ab", Perm: int(pdf.PermCopy | pdf.PermForms), Meta: "none", Human: human,
+						ContKind: kind, ContFill: fill, ContTop: top})
+				}
+			}
+		}
+	}
+	r.Dim("container_rule", "one object for every (width n, outer wrapping, inner wrapping, write route) in one file per (version, HumanReadable, wide kind, fill): a wide array/dictionary of n positions with a string (sparse: at the first, middle and last position; dense: at every position) wrapped per 'inner', the wide container wrapped per 'outer'; widths 1,2,3 and 2^k-1,2^k,2^k+1 for 4 <= 2^k <= top; every object must read back as written with the user and with the owner password")
+	r.Dim("container_wide_kinds", containerKinds)
+	r.Dim("container_fills", containerFills)
+	r.Dim("container_inner_wrappings", containerInner)
+	r.Dim("container_outer_wrappings", containerOuter)
+	r.Dim("container_write_routes", containerRoutes)
+	r.Dim("container_widths_sparse", containerWidths(cp.topSparse))
+	r.Dim("container_widths_dense", containerWidths(cp.topDense))
+	r.Dim("files_container_space", len(cjobs))
+	r.Par(len(cjobs), func(k int) {
+		if r.Expired() || r.TooManyViolations() {
+			return
+		}
+		rn.one(cjobs[k])
+	})
+
 	// expensive (revision 6) files are spread evenly over the workers by
 	// visiting the jobs in a strided order
 	order := make([]int, 0, len(jobs))
@@ -901,6 +944,7 @@ func Run(tier string) int {
 	lj := ljobs[len(ljobs)-2]
 	r.Sample(lj)
 	r.Sample(ajobs[len(ajobs)/2+5])
+	r.Sample(cjobs[len(cjobs)-3])
 	return r.Finish()
 }
 
